@@ -170,6 +170,16 @@ EditInsert(id, pos) ==
     /\ nedit' = nedit + 1 /\ last' = [a |-> "EditInsert", side |-> "orig", id |-> id]
     /\ UNCHANGED <<oroot, croot, proto, stack, status, phase, nmut, otree, fired, hist>>
 
+\* list.reverse() is the inherited built-in: it bypasses the child map (not in C17's list of mutators; used here
+\* only to obtain an original whose two views disagree)
+Reverse(s) == [i \in 1..Len(s) |-> s[Len(s) + 1 - i]]
+EditReverse(id) ==
+    /\ phase = "ready" /\ nedit < MaxEdits /\ IsList(heap[id].n) /\ Len(heap[id].py) >= 2
+    /\ LET r == Reverse(heap[id].py)
+       IN heap' = [heap EXCEPT ![id].py = [i \in 1..Len(r) |-> <<IKey(i - 1), r[i][2]>>]]
+    /\ nedit' = nedit + 1 /\ last' = [a |-> "EditReverse", side |-> "orig", id |-> id]
+    /\ UNCHANGED <<oroot, croot, proto, stack, status, phase, nmut, otree, fired, hist>>
+
 ----------------------------------------------------------------------------
 \* the reconstruction machine
 
@@ -303,6 +313,7 @@ MutPr(id) ==
 \* container.append(7) / container['zz'] = 7
 MutSet(id) ==
     /\ MutCommon(id, "MutSet") /\ IsComposed(heap[id].n)
+    /\ IsDict(heap[id].n) => \A i \in 1..Len(heap[id].py) : heap[id].py[i][1] # SKey("zz")
     /\ LET c == heap[id]  nid == NextId(heap)
            e == <<IF IsList(c.n) THEN IKey(Len(c.py)) ELSE SKey("zz"), nid>>
        IN heap' = [heap EXCEPT ![id].kids = Append(@, e), ![id].py = Append(@, e)] @@ (nid :> NewChildCell(c, FreshLeaf))
@@ -320,11 +331,12 @@ MutClear(id) ==
 MutEnabled(op, id) ==
     /\ Done /\ nmut < MaxMut /\ id \in Mutable
     /\ (op \in {"MutSet", "MutDel", "MutClear"} => IsComposed(heap[id].n))
+    /\ (op = "MutSet" /\ IsDict(heap[id].n) => \A i \in 1..Len(heap[id].py) : heap[id].py[i][1] # SKey("zz"))
     /\ (op = "MutDel" => Len(heap[id].kids) > 0 /\ heap[id].kids = heap[id].py)
     /\ (op = "MutClear" => Len(heap[id].py) > 0)
 
 Mutate == \E id \in DOMAIN heap : MutMd(id) \/ MutPr(id) \/ MutSet(id) \/ MutDel(id) \/ MutClear(id)
-Edit == \E id \in DOMAIN heap : EditAppend(id) \/ \E pos \in 0..2 : EditInsert(id, pos)
+Edit == \E id \in DOMAIN heap : EditAppend(id) \/ EditReverse(id) \/ \E pos \in 0..2 : EditInsert(id, pos)
 
 ----------------------------------------------------------------------------
 \* The property (DESIGN 5/C19)
@@ -364,9 +376,11 @@ Isolated ==
 BehavesIn(ctx) ==
     /\ MergeDocs(CopyT, ctx) = MergeDocs(OrigT, ctx)
     /\ MergeDocs(ctx, CopyT) = MergeDocs(ctx, OrigT)
+\* (MergeDocs is a function of its arguments: for an equal record tree nothing has to be computed)
 BehavesOver(ctxs) ==
     (Copied /\ nmut = 0 /\ InDomain /\ proto # "copy") =>
-        /\ DataOf(CopyT) = DataOf(OrigT)
-        /\ \A i \in 1..Len(ctxs) : BehavesIn(ctxs[i])
+        \/ CopyT = OrigT
+        \/ /\ DataOf(CopyT) = DataOf(OrigT)
+           /\ \A i \in 1..Len(ctxs) : BehavesIn(ctxs[i])
 
 =============================================================================
